@@ -410,6 +410,26 @@ def _default_vi(t):
     return v
 
 
+def _leaf(t):
+    w = t.WhichOneof("value")
+    while w in ("sequence_type", "optional_type"):
+        t = getattr(t, w).elem_type
+        w = t.WhichOneof("value")
+    return getattr(t, w) if w in ("tensor_type", "sparse_tensor_type") else None
+
+
+def _fill_from_tensor(v, t):
+    v = copy.deepcopy(v)
+    d = _default_vi(t)
+    if v.type.WhichOneof("value") is None:
+        v.type.CopyFrom(d.type)
+    else:
+        leaf = _leaf(v.type)
+        if leaf is not None and not leaf.HasField("shape"):
+            leaf.shape.CopyFrom(d.type.tensor_type.shape)
+    return v
+
+
 def _norm_graph(g, extra_referenced=()):
     for n in g.node:
         _norm_node(n)
@@ -427,7 +447,10 @@ def _norm_graph(g, extra_referenced=()):
     by_name = {v.name: v for v in g.value_info}
     keep = {}
     for name, v in by_name.items():
-        if (name in referenced or name in extra_referenced) and _vi_has_info(v):
+        if name in init and name not in in_names:
+            # the entry of an initializer is completed from the tensor where it says nothing
+            keep[name] = _fill_from_tensor(v, init[name])
+        elif (name in referenced or name in extra_referenced) and _vi_has_info(v):
             keep[name] = v
     outs = {v.name: v for v in g.output}
     for name, t in init.items():
